@@ -86,7 +86,7 @@ UNITS = {
         prelude_extra='preludes/glue.rs',
         specs='contracts/glue.vspec',
         lemmas=['lemmas/ctrl_lemmas.rs', 'lemmas/mask_lemmas.rs', 'lemmas/probe_lemmas.rs', 'lemmas/loop_lemmas.rs'],
-        extra='ctrl_rules',
+        extra='glue_rules',
         items=[
             I(TAG, r'^impl Tag$', 'special_is_empty', impl='Tag'),
             I(RAW, r'^impl < T , A : Allocator > RawTable < T , A >$', 'buckets', impl='RawTable<T>', key='RawTable::buckets'),
@@ -96,6 +96,9 @@ UNITS = {
             I(RAW, r'^impl < T , A : Allocator > RawTable < T , A >$', 'erase', impl='RawTable<T>', key='RawTable::erase'),
             I(RAW, r'^impl < T , A : Allocator > RawTable < T , A >$', 'remove', impl='RawTable<T>', key='RawTable::remove'),
             I(RAW, r'^impl < T , A : Allocator > RawTable < T , A >$', 'replace_bucket_with', impl='RawTable<T>', key='RawTable::replace_bucket_with'),
+            dict(I(RAW, r'^impl < T : Clone , A : Allocator \+ Clone > RawTable < T , A >$', 'clone_from_impl', impl='RawTable<T>', key='clone_from_impl::guard'),
+                 closure='guard((0, &mut *self), |(index, self_)| {',
+                 new_sig='unsafe fn clone_from_impl_guard(index: &usize, self_: &mut RawTable<T>)'),
         ],
     ),
     # C04 / C02: the scope-guard closure of rehash_in_place (what runs when the hasher panics)
@@ -985,6 +988,27 @@ def set_rules(toks, i, out, hit):
         hit('R23_iterator_all_to_loop')
         return c + 1
     return None
+
+
+def glue_rules(toks, i, out, hit):
+    """unit `glue`: the rules of unit guard (native `for` over ranges), plus
+       R21  `T::NEEDS_DROP` -> `needs_drop::<T>()`; `X.bucket(E).drop()` -> `X.drop_bucket_at(E)` (the drop of the
+            element in bucket E, recorded in the table view's drop log)"""
+    t = toks[i]
+    n = len(toks)
+    T = extract.T
+    if t.text == 'T' and i + 3 < n and [x.text for x in toks[i + 1:i + 4]] == [':', ':', 'NEEDS_DROP']:
+        out.extend([T('needs_drop', t.gap), T(':', ''), T(':', ''), T('<', ''), T('T', ''), T('>', ''), T('(', ''), T(')', '')])
+        hit('R21_NEEDS_DROP_to_opaque_fn')
+        return i + 4
+    if t.kind == 'id' and i + 3 < n and [x.text for x in toks[i + 1:i + 4]] == ['.', 'bucket', '(']:
+        c = extract._find_close(toks, i + 3)
+        if [x.text for x in toks[c + 1:c + 5]] == ['.', 'drop', '(', ')']:
+            args = extract.rewrite(toks[i + 4:c], set(), _HITS, glue_rules)
+            out.extend([T(t.text, t.gap), T('.', ''), T('drop_bucket_at', ''), T('(', '')] + args + [T(')', '')])
+            hit('R21_bucket_drop_recorded')
+            return c + 5
+    return guard_rules(toks, i, out, hit)
 
 
 def generate(unit_name, width, outdir):
